@@ -2,32 +2,31 @@
 # usage: seedtest.sh <seed-name> <worktree> <property> [check args...]
 # 1. confirms a sub-agent's seeded fault in its scratch worktree (suite passes, demo fails with / passes without)
 # 2. stores it under /verif/seeded/<seed-name>/
-# 3. applies it to /repo, runs ./check <property> <args>, and undoes it straight afterwards
+# 3. runs ./check <property> <args> against the worktree with the change applied
+#    (VERIF_REPO=<worktree>: same harnesses, scratch copy of the harness crate; /repo is not touched,
+#    so several seeds can be tried in parallel). `seedtest.sh --official` variant: see seedofficial.sh
 set -u
 NAME=$1; WT=$2; PROP=$3; shift 3
 OUT=/verif/seeded/$NAME
 mkdir -p $OUT
 export CARGO_TARGET_DIR=$WT/target CARGO_NET_OFFLINE=true
 cd $WT || exit 9
-git diff -- src > $OUT/patch.diff
-cp tests/seed_demo.rs $OUT/seed_demo.rs 2>/dev/null
-[ -f SEED/README.md ] && cp SEED/README.md $OUT/agent_README.md
-echo "== demo with the change (expect FAIL)"
-cargo test --offline --test seed_demo > $OUT/demo_with.log 2>&1; R1=$?
-mv tests/seed_demo.rs /tmp/seed_demo_$NAME.rs
-echo "== suite with the change (expect PASS)"
-cargo test --offline --no-fail-fast > $OUT/suite_with.log 2>&1; R2=$?
-mv /tmp/seed_demo_$NAME.rs tests/seed_demo.rs
-git apply -R $OUT/patch.diff
-echo "== demo without the change (expect PASS)"
-cargo test --offline --test seed_demo > $OUT/demo_without.log 2>&1; R3=$?
-git apply $OUT/patch.diff
-echo "demo_with_change_rc=$R1 suite_with_change_rc=$R2 demo_without_change_rc=$R3" | tee $OUT/confirm.txt
-if [ $R1 -eq 0 ] || [ $R2 -ne 0 ] || [ $R3 -ne 0 ]; then echo "SEED NOT CONFIRMED"; exit 8; fi
+if [ ! -f $OUT/confirm.txt ] || ! grep -q "demo_with_change_rc=101 suite_with_change_rc=0 demo_without_change_rc=0" $OUT/confirm.txt; then
+  git diff -- src > $OUT/patch.diff
+  cp tests/seed_demo.rs $OUT/seed_demo.rs 2>/dev/null
+  [ -f SEED/README.md ] && cp SEED/README.md $OUT/agent_README.md
+  cargo test --offline --test seed_demo > $OUT/demo_with.log 2>&1; R1=$?
+  mv tests/seed_demo.rs /tmp/seed_demo_$NAME.rs
+  cargo test --offline --no-fail-fast > $OUT/suite_with.log 2>&1; R2=$?
+  mv /tmp/seed_demo_$NAME.rs tests/seed_demo.rs
+  git apply -R $OUT/patch.diff
+  cargo test --offline --test seed_demo > $OUT/demo_without.log 2>&1; R3=$?
+  git apply $OUT/patch.diff
+  echo "demo_with_change_rc=$R1 suite_with_change_rc=$R2 demo_without_change_rc=$R3" | tee $OUT/confirm.txt
+  if [ $R1 -eq 0 ] || [ $R2 -ne 0 ] || [ $R3 -ne 0 ]; then echo "SEED NOT CONFIRMED"; exit 8; fi
+fi
+unset CARGO_TARGET_DIR
 cd /verif
-git -C /repo apply $OUT/patch.diff || { echo "patch does not apply to /repo"; exit 7; }
-./check $PROP "$@" --no-evidence > $OUT/check_$PROP.log 2>&1; RC=$?
-git -C /repo checkout -- .
-echo "check_rc=$RC" | tee -a $OUT/confirm.txt
-grep -E "VIOLATION|KNOWN-FINDING|INCONCLUSIVE|harnesses," $OUT/check_$PROP.log | cut -c1-200
-git -C /repo status --short | head -3
+VERIF_REPO=$WT ./check $PROP "$@" --no-evidence > $OUT/check_$PROP.log 2>&1; RC=$?
+echo "check $PROP $* rc=$RC" | tee -a $OUT/confirm.txt
+grep -E "VIOLATION|KNOWN-FINDING|INCONCLUSIVE|harnesses,|fail " $OUT/check_$PROP.log | cut -c1-220
